@@ -140,6 +140,7 @@ def run_group(fs, harnesses, tag, timeout_s=600, jobs=8, mem_gb=10, stubbing=Fal
             st = r.get("status")
             checks = r.get("checks") or []
             hr.n_checks = len(checks)
+            n_error = 0
             for c in checks:
                 cs = c.get("status")
                 cat = c.get("category", "")
@@ -151,6 +152,8 @@ def run_group(fs, harnesses, tag, timeout_s=600, jobs=8, mem_gb=10, stubbing=Fal
                     else:
                         hr.covers_unsat.append(c.get("description", "") + " [" + str(cs) + "]")
                     continue
+                if cs == "Error":
+                    n_error += 1
                 if cs == "Success":
                     hr.n_passed += 1
                 elif cs == "Failure":
@@ -169,6 +172,11 @@ def run_group(fs, harnesses, tag, timeout_s=600, jobs=8, mem_gb=10, stubbing=Fal
             if hr.status == "failure" and not checks:
                 hr.status = "timeout"
                 hr.note = "no result (timeout or solver killed)"
+            # CBMC reports every property as ERROR when the solver died (typically out of memory)
+            if n_error and not hr.failed and not hr.unwind_failed:
+                hr.status = "error"
+                hr.note = "%d checks in status ERROR (solver out of memory / aborted)" % n_error
+                hr.covers_unsat = []
     # Fall back on the log for harnesses the JSON does not describe.
     for h, hr in results.items():
         if hr.status == "missing":
